@@ -11,14 +11,23 @@
 //!   coord.full.*    the same streams on a WAL whose size limit makes appends FAIL (auto_rotate off):
 //!                   every byte value of the limit over hand-written scripts, and a share of the
 //!                   seeded scenarios; the model is told the payload sizes (`need` protocol)
-//!   coord.rot.*     the size limit with auto_rotate on (observations only)
+//!   rot.*           the size limit with auto_rotate on, and truncate_wal with a transaction pending
+//!                   (correspondence with the model's rotation / truncation; the loss of a Prepared
+//!                   transaction is reported under its known-finding class)
+//!   coord.handles   the process-wide lock-handle counter: real handle numbers (no relabelling),
+//!                   votes carrying handles the counter of the restarted coordinator has not
+//!                   reached yet, restart, `lock_handle_current()` / `try_lock` handles / lock
+//!                   table vs the model's counter (`set_counter`, `trylock`, `state`)
 //! Oracles (evaluated on the real coordinator only, classes are machine computed):
 //!   logged outcome never reversed, acknowledged records survive reopen+append (torn tail),
 //!   prepared transactions come back with their accepted votes and can be completed,
 //!   forgotten transactions hold no locks, completed transactions' locks are released,
 //!   memory never ahead of the log (a pending transaction's Prepared / Committing phase and its
 //!   votes are in the file), an ok answer of commit/abort comes with its TxComplete record and any
-//!   other answer with none, recover() sends a restored all-YES prepared transaction to commit.
+//!   other answer with none, recover() sends a restored all-YES prepared transaction to commit,
+//!   what memory holds as Prepared comes back Prepared after a restart on the whole file (class by
+//!   cause: rotation / truncate_wal with the transaction pending / anything else), finishing a
+//!   recovered transaction never releases a lock taken after the restart.
 use nverif::*;
 use serde_json::{json, Value};
 use std::collections::{BTreeMap, HashSet};
@@ -143,6 +152,10 @@ struct TxInfo {
     /// a vote for this tx was written to the WAL but rejected by `record_vote`
     rejected_logged: bool,
     yes_count: usize,
+    /// the WAL file holding this transaction's TxBegin was rotated away while it was pending
+    rotated_away: bool,
+    /// truncate_wal() emptied the WAL while this transaction was pending
+    truncated_away: bool,
 }
 
 #[derive(Clone, Debug)]
@@ -484,7 +497,17 @@ struct Ctx<'a> {
 }
 
 fn violation(cx: &mut Ctx, w: &World, class: &str, what: &str, extra: Value) {
-    cx.rep.violation(class, what, json!({"trace": w.trace, "during": w.cur, "detail": extra}));
+    report_violation(cx.rep, class, what, json!({"trace": w.trace, "during": w.cur, "detail": extra}));
+}
+
+/// the report keeps a bounded number of violations: at most three failing inputs per class, so
+/// that a class that fires on many inputs (a known finding, say) never crowds out another one
+fn report_violation(rep: &mut Report, class: &str, what: &str, input: Value) {
+    rep.hit(&format!("violation.{class}"));
+    let same = rep.violations.iter().filter(|v| v.get("class").and_then(|c| c.as_str()) == Some(class)).count();
+    if same < 3 {
+        rep.violation(class, what, input);
+    }
 }
 
 fn num_phase(n: u8) -> TxPhase {
@@ -701,6 +724,8 @@ fn exec(w: &mut World, op: &Op, cx: &mut Ctx) {
                         accepted: BTreeMap::new(),
                         rejected_logged: false,
                         yes_count: 0,
+                        rotated_away: false,
+                        truncated_away: false,
                     });
                     check_tx = Some(Some(w.book.txs.len() - 1));
                     (format!("begin {} {} {}", w.book.txs.len(), show_list(parts), tx.started_at), "ok".into())
@@ -982,6 +1007,11 @@ fn exec(w: &mut World, op: &Op, cx: &mut Ctx) {
                 return;
             }
             cx.rep.hit("op.truncate");
+            for i in 0..w.book.txs.len() {
+                if w.c().get(w.book.txs[i].real).is_some() {
+                    w.book.txs[i].truncated_away = true;
+                }
+            }
             let res = match w.c().truncate_wal() {
                 Ok(()) => "ok".to_string(),
                 Err(e) => format!("err:{e}"),
@@ -1006,6 +1036,12 @@ fn exec(w: &mut World, op: &Op, cx: &mut Ctx) {
     };
     if rotated {
         cx.rep.hit("wal.rotated");
+        for i in 0..w.book.txs.len() {
+            let begun_in_old_file = w.book.recs.iter().any(|r| r.token.starts_with(&format!("B:{}:", i + 1)));
+            if begun_in_old_file && w.c().get(w.book.txs[i].real).is_some() {
+                w.book.txs[i].rotated_away = true;
+            }
+        }
         w.book.recs.clear();
         w.book.durable.clear();
     }
@@ -1102,6 +1138,11 @@ fn crash(w: &mut World, cut: &Cut, timeout: u64, maxc: usize, cap: Option<(u64, 
 }
 
 fn restart_at(w: &mut World, pre: &[u8], n: usize, timeout: u64, maxc: usize, cap: Option<(u64, bool)>, cx: &mut Ctx) {
+    // what the dying process holds as Prepared (only meaningful when the whole file survives)
+    let prepared_in_memory: Vec<usize> = match (&w.coord, n == pre.len()) {
+        (Some(c), true) => (0..w.book.txs.len()).filter(|t| c.get(w.book.txs[*t].real).map(|x| x.phase) == Some(TxPhase::Prepared)).collect(),
+        _ => vec![],
+    };
     w.coord = None; // drop: BufWriter has nothing buffered (every append flushes + fsyncs)
     w.crashes += 1;
     let cutb = &pre[..n];
@@ -1199,6 +1240,28 @@ fn restart_at(w: &mut World, pre: &[u8], n: usize, timeout: u64, maxc: usize, ca
     }
     if rec.is_err() {
         return;
+    }
+    // ---- oracle: what memory held as Prepared survives the loss of the process (whole file kept).
+    // The class names the cause read off the trace: the file that held the transaction's TxBegin
+    // was rotated away / truncate_wal() ran while it was pending (known findings), or neither.
+    for t in prepared_in_memory {
+        cx.rep.hit("oracle.prepared_in_memory_durable");
+        if w.c().get(w.book.txs[t].real).map(|x| x.phase) != Some(TxPhase::Prepared) {
+            let ti = &w.book.txs[t];
+            let (class, what) = if ti.truncated_away {
+                cx.rep.hit("truncate.prepared_tx_dropped");
+                ("tensor_chain.distributed_tx.truncate_wal/in_flight_transactions_dropped",
+                 "truncate_wal() emptied the WAL while a transaction record_vote had acknowledged as Prepared was pending: it is forgotten by the restart")
+            } else if ti.rotated_away {
+                cx.rep.hit("rot.prepared_tx_dropped");
+                ("tensor_chain.tx_wal.rotate/in_flight_transactions_dropped",
+                 "size-limit rotation renamed the WAL file holding a pending transaction away; replay / recover_from_wal read only the current file: a transaction that was Prepared in memory is forgotten by the restart")
+            } else {
+                ("tensor_chain.distributed_tx.memory/prepared_in_memory_not_durable",
+                 "a transaction that was Prepared in memory did not come back Prepared after a restart on the whole file")
+            };
+            violation(cx, w, class, what, json!({"tx": t + 1, "size_limit_of_the_dead_process": format!("{:?}", w.trace.first())}));
+        }
     }
     // ---- oracles on the recovered coordinator, from the surviving records alone
     let surv: Vec<String> = w.book.recs.iter().map(|r| r.token.clone()).collect();
@@ -1781,20 +1844,8 @@ fn directed_full(cx: &mut Ctx, thorough: bool) {
                 exec(&mut w, op, cx);
             }
             exec(&mut w, &Op::Decisions, cx);
-            // what memory holds as Prepared must survive the loss of the process
-            let prepared_before: Vec<usize> = (0..w.book.txs.len())
-                .filter(|t| w.c().get(w.book.txs[*t].real).map(|x| x.phase) == Some(TxPhase::Prepared))
-                .collect();
+            // what memory holds as Prepared must survive the loss of the process (oracle in `restart_at`)
             exec(&mut w, &Op::Crash { cut: Cut::Full, timeout: NEVER_MS, maxc: 100, cap: None }, cx);
-            if !w.clock_unsure {
-                for t in prepared_before {
-                    if w.c().get(w.book.txs[t].real).map(|x| x.phase) != Some(TxPhase::Prepared) {
-                        violation(cx, &w, "tensor_chain.distributed_tx.memory/prepared_in_memory_not_durable",
-                            "a transaction that was Prepared in memory did not come back Prepared after a restart on the whole file",
-                            json!({"tx": t + 1, "cap": cap}));
-                    }
-                }
-            }
             exec(&mut w, &Op::RecoverMem, cx);
             exec(&mut w, &Op::Decisions, cx);
             exec(&mut w, &Op::CCommit(0), cx);
@@ -1811,8 +1862,11 @@ fn directed_full(cx: &mut Ctx, thorough: bool) {
 
 /// The size limit with `auto_rotate = true` (the default): the append that does not fit renames
 /// the file away; `replay` reads only the current file.  Correspondence with the model's rotation
-/// branch, and the consequence as an observation: a transaction that is Prepared in memory is
-/// not brought back by a restart.
+/// branch; the consequence — a transaction that is Prepared in memory is not brought back by a
+/// restart — is found by the oracle of `restart_at` and reported under the known-finding class
+/// `tensor_chain.tx_wal.rotate/in_flight_transactions_dropped`.  Then `truncate_wal()`: at a
+/// checkpoint (nothing pending) and with a prepared transaction pending
+/// (`tensor_chain.distributed_tx.truncate_wal/in_flight_transactions_dropped`).
 fn directed_rot(cx: &mut Ctx) {
     let yes = V::YesLocked;
     let ops = vec![
@@ -1825,32 +1879,17 @@ fn directed_rot(cx: &mut Ctx) {
         Op::Flush,
     ];
     let prefix = cx.stream_prefix;
-    let mut observed = false;
     for cap in (20..=200usize).step_by(6) {
         let mut w = World::new_capped(NEVER_MS, 100, Some((cap as u64, true)), cx.m);
         for op in &ops {
             exec(&mut w, op, cx);
         }
-        let prepared_before: Vec<usize> = (0..w.book.txs.len())
-            .filter(|t| w.c().get(w.book.txs[*t].real).map(|x| x.phase) == Some(TxPhase::Prepared))
-            .collect();
         exec(&mut w, &Op::Crash { cut: Cut::Full, timeout: NEVER_MS, maxc: 100, cap: None }, cx);
         if w.clock_unsure {
             continue;
         }
-        for t in prepared_before {
-            if w.c().get(w.book.txs[t].real).is_none() && !observed {
-                observed = true;
-                cx.rep.hit("rot.prepared_tx_dropped");
-                cx.rep.observe(json!({
-                    "class": "tensor_chain.tx_wal.rotate/in_flight_transactions_dropped",
-                    "what": "size-limit rotation (auto_rotate, the default) renames the current WAL file away; replay and recover_from_wal read only the current file, so a transaction that record_vote acknowledged as Prepared is forgotten by the next restart (outside C13's quantifier: 1-4 transactions never reach the default 1 GiB limit; proved for the model as rotation_forgets_prepared_witness)",
-                    "max_size_bytes": cap, "tx": t + 1, "trace": w.trace}));
-            }
-        }
         cx.rep.case(&format!("{prefix}directed.rot"), Some(&format!("rot@{cap}")));
     }
-    // truncate_wal: at a checkpoint (nothing pending) and with a prepared transaction pending
     for anyway in [false, true] {
         let mut w = World::new(NEVER_MS, 100, cx.m);
         let mut script = vec![
@@ -1862,22 +1901,9 @@ fn directed_rot(cx: &mut Ctx) {
         for op in &script {
             exec(&mut w, op, cx);
         }
-        let was_prepared = w.c().get(w.book.txs[1].real).map(|x| x.phase) == Some(TxPhase::Prepared);
         exec(&mut w, &Op::Crash { cut: Cut::Full, timeout: NEVER_MS, maxc: 100, cap: None }, cx);
         if w.clock_unsure {
             continue;
-        }
-        let back = w.c().get(w.book.txs[1].real).is_some();
-        if anyway && was_prepared && !back {
-            cx.rep.hit("truncate.prepared_tx_dropped");
-            cx.rep.observe(json!({
-                "class": "tensor_chain.distributed_tx.truncate_wal/in_flight_transactions_dropped",
-                "what": "truncate_wal() empties the WAL whatever is pending: a transaction record_vote acknowledged as Prepared is forgotten by the next restart (outside C13's quantifier: truncate_wal is not among its operations; the theorems ask for `pending = []` at a truncation, proved otherwise by truncate_forgets_prepared_witness)",
-                "trace": w.trace}));
-        }
-        if !anyway && !back {
-            violation(cx, &w, "tensor_chain.distributed_tx.truncate_wal/skipped_truncate_lost_tx",
-                "a prepared transaction is gone although the truncation was skipped", json!({}));
         }
         let mut rr = Rng::new(7);
         drain_and_verify(&mut w, cx, &mut rr);
@@ -1885,40 +1911,373 @@ fn directed_rot(cx: &mut Ctx) {
     }
 }
 
-/// Lock handles come from a process-wide counter that restarts with the process, while the WAL
-/// keeps the handles of the previous process: a recovered transaction's handle can be the
-/// handle a new lock gets.  Real coordinator only (the model takes handle numbers as inputs).
-fn directed_stale_handle(cx: &mut Ctx) {
+// ------------------------------------------------------------------ the lock-handle counter
+
+const STALE_CLASS: &str = "tensor_chain.distributed_tx.recover_from_wal/stale_lock_handle_releases_foreign_lock";
+
+/// a vote of a transaction of the first process
+#[derive(Clone, Debug)]
+enum HV {
+    /// YES with a handle `try_lock` of this process returned
+    Locked,
+    /// YES with the handle `k` past the counter: a handle the process that wrote the log had handed
+    /// out and the counter of the restarted one (which starts at 1 again) has not reached yet
+    Ahead(u64),
+    /// YES with a handle above the high-water mark
+    Fake(u64),
+    No,
+}
+
+#[derive(Clone, Debug)]
+enum HEnd {
+    Leave,
+    Commit,
+    Abort,
+}
+
+#[derive(Clone, Debug)]
+struct HTx {
+    votes: Vec<HV>,
+    /// the last participant never votes: the transaction stays Preparing
+    skip_last: bool,
+    end: HEnd,
+}
+
+#[derive(Clone, Debug)]
+struct HScript {
+    pre: Vec<HTx>,
+    /// whole records cut off the end of the file
+    drop_records: usize,
+    /// locks the new transaction of the restarted process takes
+    b_locks: usize,
+    /// `recover_from_wal` once more on the live coordinator, after the locks
+    live_recover: bool,
+    /// how each recovered transaction is finished: 0 commit, 1 abort, 2/3 force_resolve(true/false), 4 complete_*
+    finish: Vec<u8>,
+}
+
+fn vote_res(r: &Result<Option<TxPhase>, VoteRecordError>) -> String {
+    match r {
+        Ok(Some(p)) => format!("phase{}", phase_num(*p)),
+        Ok(None) => "voted".to_string(),
+        Err(VoteRecordError::TxNotFound(_)) => "not_found".to_string(),
+        Err(VoteRecordError::WrongPhase { actual, .. }) => format!("wrong_phase{}", phase_num(*actual)),
+        Err(VoteRecordError::DuplicateVote { .. }) => "duplicate".to_string(),
+    }
+}
+
+fn unit_res<E: std::fmt::Display>(r: &Result<(), E>) -> String {
+    match r {
+        Ok(()) => "ok".to_string(),
+        Err(e) => {
+            let s = e.to_string();
+            if s.contains("not found") {
+                "not_found".to_string()
+            } else if s.contains("cannot be committed") {
+                "cannot_commit".to_string()
+            } else if s.contains("phase") {
+                "wrong_phase".to_string()
+            } else {
+                format!("err:{s}")
+            }
+        }
+    }
+}
+
+/// entry token with transactions renamed to their index and lock handles as they are
+fn raw_token(e: &TxWalEntry, txs: &[u64]) -> String {
+    let t = direct_token(e);
+    let mut f: Vec<String> = t.split(':').map(|x| x.to_string()).collect();
+    if f.len() >= 2 {
+        let real: u64 = f[1].parse().unwrap_or(0);
+        f[1] = txs.iter().position(|x| *x == real).map(|i| (i + 1).to_string()).unwrap_or_else(|| "999".to_string());
+    }
+    f.join(":")
+}
+
+/// memory of the coordinator with real handle numbers, in the format of the model's `state`
+fn hdigest(c: &DistributedTxCoordinator, txs: &[u64], keys: &[(String, usize, u64)]) -> String {
+    let mut ps = vec![];
+    for (i, real) in txs.iter().enumerate() {
+        if let Some(tx) = c.get(*real) {
+            let mut vs: Vec<(usize, String)> = tx.votes.iter().map(|(s, v)| (*s, match v {
+                PrepareVote::Yes { lock_handle, .. } => format!("y{lock_handle}"),
+                PrepareVote::No { .. } => "n".to_string(),
+                _ => "c".to_string(),
+            })).collect();
+            vs.sort();
+            let vstr = if vs.is_empty() { "-".to_string() } else { vs.iter().map(|(s, v)| format!("{s}.{v}")).collect::<Vec<_>>().join("/") };
+            ps.push(format!("{}:{}:{}:{vstr}:{}", i + 1, phase_num(tx.phase), show_list(&tx.participants), tx.timeout_ms));
+        }
+    }
+    let mut ls: Vec<(u64, u64)> = vec![];
+    for (key, _, h) in keys {
+        if let Some(holder) = c.lock_manager().lock_holder(key) {
+            ls.push((txs.iter().position(|x| *x == holder).map(|i| i as u64 + 1).unwrap_or(999), *h));
+        }
+    }
+    ls.sort();
+    format!("pending=[{}] locks=[{}] next={}", ps.join(";"), ls.iter().map(|(t, h)| format!("{t}.{h}")).collect::<Vec<_>>().join(";"),
+        tensor_chain::lock_handle_current())
+}
+
+fn model_state(m: &mut Model) -> String {
+    let st = m.ask("state");
+    match (st.find(" aborts="), st.rfind(" next=")) {
+        (Some(a), Some(n)) if a < n => format!("{}{}", &st[..a], &st[n..]),
+        _ => st,
+    }
+}
+
+/// One scenario of the handle stream.  Real handle numbers throughout; the harness restarts the
+/// coordinator inside one OS process, so it tells the model where the process-wide counter stands
+/// when each "process" starts (a real new process starts at 1 — `restartLog` in the model).
+fn run_handles(cx: &mut Ctx, name: &str, sc: &HScript) {
+    let stream = "coord.handles";
     let dir = tmp_dir();
     let path = dir.path().join("tx.wal");
-    let (c, _, _) = new_coord(&path, NEVER_MS, 100, None);
-    let a = c.begin(&"n1".to_string(), &[0]).unwrap();
-    // the previous process gave transaction A this handle; the new process' counter will reach it
-    let stale = tensor_chain::lock_handle_current();
-    let r = c.record_vote(a.tx_id, 0, PrepareVote::Yes { lock_handle: stale, delta: DeltaVector::zero(0) });
-    if r != Ok(Some(TxPhase::Prepared)) {
-        return;
+    let mut trace: Vec<String> = vec![];
+    let mut txs: Vec<u64> = vec![];
+    let mut keys: Vec<(String, usize, u64)> = vec![];
+    cx.m.ask("reset_dict");
+    cx.m.ask(&new_line(NEVER_MS, 100, None));
+    cx.m.ask(&format!("set_counter {}", tensor_chain::lock_handle_current()));
+    trace.push(format!("process 1: counter at {}", tensor_chain::lock_handle_current()));
+    // compare one call: its answer and the memory afterwards
+    fn step(cx: &mut Ctx, stream: &str, trace: &mut Vec<String>, line: &str, impl_res: &str, digest: String, strip_digits: bool) {
+        let ans = cx.m.ask(line);
+        let mut mres = ans.split(" | ").next().unwrap_or("").to_string();
+        if strip_digits && mres.starts_with("wrong_phase") {
+            mres = "wrong_phase".into();
+        }
+        let mstate = model_state(cx.m);
+        trace.push(format!("{line} -> {impl_res}"));
+        cx.rep.compare(stream, || json!({"trace": trace}), &format!("{impl_res} ; {digest}"), &format!("{mres} ; {mstate}"));
     }
-    drop(c);
+    let (c1, _, _) = new_coord(&path, NEVER_MS, 100, None);
+    // begins, then every lock of this process, then the votes (so that `Ahead` is relative to the
+    // value the counter keeps until the restart)
+    for (i, t) in sc.pre.iter().enumerate() {
+        let parts: Vec<usize> = (0..t.votes.len()).collect();
+        let Ok(tx) = c1.begin(&"n1".to_string(), &parts) else { return };
+        txs.push(tx.tx_id);
+        let d = hdigest(&c1, &txs, &keys);
+        step(cx, stream, &mut trace, &format!("begin {} {} {}", i + 1, show_list(&parts), tx.started_at), "ok", d, false);
+    }
+    let mut locked: Vec<Vec<Option<u64>>> = vec![];
+    for (i, t) in sc.pre.iter().enumerate() {
+        let mut row = vec![];
+        for (s, v) in t.votes.iter().enumerate() {
+            if matches!(v, HV::Locked) {
+                let key = format!("h{name}.{i}.{s}");
+                let h = c1.lock_manager().try_lock(txs[i], &[key.clone()]).expect("fresh key");
+                keys.push((key, i, h));
+                let mh = cx.m.ask(&format!("trylock {}", i + 1));
+                trace.push(format!("trylock {} -> {h}", i + 1));
+                cx.rep.compare(stream, || json!({"trace": trace}), &h.to_string(), &mh);
+                row.push(Some(h));
+            } else {
+                row.push(None);
+            }
+        }
+        locked.push(row);
+    }
+    let base = tensor_chain::lock_handle_current();
+    for (i, t) in sc.pre.iter().enumerate() {
+        let nv = if t.skip_last { t.votes.len().saturating_sub(1) } else { t.votes.len() };
+        for (s, v) in t.votes.iter().enumerate().take(nv) {
+            let (vote, vstr) = match v {
+                HV::Locked => { let h = locked[i][s].unwrap(); (PrepareVote::Yes { lock_handle: h, delta: DeltaVector::zero(0) }, format!("y{h}")) }
+                HV::Ahead(k) => (PrepareVote::Yes { lock_handle: base + k, delta: DeltaVector::zero(0) }, format!("y{}", base + k)),
+                HV::Fake(k) => (PrepareVote::Yes { lock_handle: FAKE_H_REAL + k, delta: DeltaVector::zero(0) }, format!("y{}", FAKE_H_REAL + k)),
+                HV::No => (PrepareVote::No { reason: "no".into() }, "n".to_string()),
+            };
+            let r = c1.record_vote(txs[i], s, vote);
+            let d = hdigest(&c1, &txs, &keys);
+            step(cx, stream, &mut trace, &format!("vote {} {s} {vstr} 0", i + 1), &vote_res(&r), d, false);
+        }
+        match t.end {
+            HEnd::Leave => {}
+            HEnd::Commit => {
+                let r = c1.commit(txs[i]);
+                let d = hdigest(&c1, &txs, &keys);
+                step(cx, stream, &mut trace, &format!("commit {}", i + 1), &unit_res(&r), d, true);
+            }
+            HEnd::Abort => {
+                let r = c1.abort(txs[i], "requested");
+                let d = hdigest(&c1, &txs, &keys);
+                step(cx, stream, &mut trace, &format!("abort {}", i + 1), &unit_res(&r), d, true);
+            }
+        }
+    }
+    drop(c1);
+    // the file: announce every payload, cut whole records off the end
+    let bytes = std::fs::read(&path).unwrap_or_default();
+    let fr = frames(&bytes, 0);
+    for (_, _, p) in &fr {
+        if let Ok(e) = bitcode::deserialize::<TxWalEntry>(p) {
+            cx.m.ask(&format!("def {} {}", hex(p), raw_token(&e, &txs)));
+        }
+    }
+    let keep = fr.len().saturating_sub(sc.drop_records);
+    let n = if keep == 0 { 0 } else { fr[keep - 1].1 };
+    std::fs::write(&path, &bytes[..n]).unwrap();
+    // process 2
+    cx.m.ask(&new_line(NEVER_MS, 100, None));
+    cx.m.ask(&format!("set_counter {}", tensor_chain::lock_handle_current()));
+    trace.push(format!("crash: {keep} of {} records kept; process 2: counter at {}", fr.len(), tensor_chain::lock_handle_current()));
     let (c2, _, _) = new_coord(&path, NEVER_MS, 100, None);
-    if c2.recover_from_wal().is_err() || c2.get(a.tx_id).map(|t| t.phase) != Some(TxPhase::Prepared) {
+    let t0 = now_ms();
+    if c2.recover_from_wal().is_err() {
         return;
     }
-    let b = c2.begin(&"n1".to_string(), &[0]).unwrap();
-    let hb = c2.lock_manager().try_lock(b.tx_id, &["kb".to_string()]).unwrap();
-    let _ = c2.record_vote(b.tx_id, 0, PrepareVote::Yes { lock_handle: hb, delta: DeltaVector::zero(0) });
-    let before = c2.lock_manager().lock_holder("kb");
-    let _ = c2.commit(a.tx_id);
-    let after = c2.lock_manager().lock_holder("kb");
-    cx.rep.hit("directed.stale-handle");
-    if hb == stale && before == Some(b.tx_id) && after.is_none() && c2.get(b.tx_id).is_some() {
-        cx.rep.hit("stale_handle.foreign_lock_released");
-        cx.rep.observe(json!({
-            "class": "tensor_chain.distributed_tx.recover_from_wal/stale_lock_handle_releases_foreign_lock",
-            "what": "lock handles are allocated from a process-wide counter that restarts at 1 with the process, but recover_from_wal restores prepared transactions with the handles the previous process logged; committing (or aborting / timing out) the recovered transaction releases by handle and so drops the lock a NEW transaction got under the same number, while that transaction is still prepared (lock safety, C12's subject; arises only through restart from the WAL). Reproduced in-process by giving A the handle number the counter hands out next.",
-            "script": ["begin A [0]", format!("record_vote(A, 0, Yes{{lock_handle: {stale}}}) -> Prepared"), "crash; restart; recover_from_wal",
-                       "begin B [0]", format!("try_lock(B, kb) -> handle {hb}"), "record_vote(B, 0, Yes) -> Prepared", "commit(A)",
-                       "lock_holder(kb) = None while B is still pending/Prepared"]}));
+    let d = hdigest(&c2, &txs, &keys);
+    step(cx, stream, &mut trace, &format!("restart {} {t0}", hex(&bytes[..n])), "ok", d, false);
+    // what came back, with the handles of its YES votes
+    let recovered: Vec<(usize, Vec<u64>)> = (0..txs.len()).filter_map(|i| c2.get(txs[i]).map(|tx| {
+        (i, tx.votes.values().filter_map(|v| match v { PrepareVote::Yes { lock_handle, .. } => Some(*lock_handle), _ => None }).collect())
+    })).collect();
+    if !recovered.is_empty() {
+        cx.rep.hit("handles.recovered_some");
+    }
+    // ... and the orphaned locks of the log (a second, read-only handle on the file)
+    let orphaned: Vec<u64> = TxWal::open_with_config(&path, wal_cfg(None)).ok()
+        .and_then(|w2| TxRecoveryState::from_wal(&w2).ok())
+        .map(|st| st.orphaned_locks.iter().map(|o| o.lock_handle).collect())
+        .unwrap_or_default();
+    if !orphaned.is_empty() {
+        cx.rep.hit("handles.orphaned_some");
+    }
+    // a new transaction takes locks in the restarted process
+    let Ok(b) = c2.begin(&"n1".to_string(), &[0]) else { return };
+    txs.push(b.tx_id);
+    let bi = txs.len() - 1;
+    let d = hdigest(&c2, &txs, &keys);
+    step(cx, stream, &mut trace, &format!("begin {} 0 {}", bi + 1, b.started_at), "ok", d, false);
+    let mut b_keys: Vec<(String, u64)> = vec![];
+    for j in 0..sc.b_locks {
+        let key = format!("h{name}.b.{j}");
+        let h = c2.lock_manager().try_lock(b.tx_id, &[key.clone()]).expect("fresh key");
+        keys.push((key.clone(), bi, h));
+        b_keys.push((key, h));
+        let mh = cx.m.ask(&format!("trylock {}", bi + 1));
+        trace.push(format!("trylock {} -> {h}", bi + 1));
+        cx.rep.compare(stream, || json!({"trace": trace}), &h.to_string(), &mh);
+        if recovered.iter().any(|(_, hs)| hs.contains(&h)) || orphaned.contains(&h) {
+            cx.rep.hit("handles.handed_out_twice");
+        }
+    }
+    if let Some((_, h)) = b_keys.first() {
+        let r = c2.record_vote(b.tx_id, 0, PrepareVote::Yes { lock_handle: *h, delta: DeltaVector::zero(0) });
+        let d = hdigest(&c2, &txs, &keys);
+        step(cx, stream, &mut trace, &format!("vote {} 0 y{h} 0", bi + 1), &vote_res(&r), d, false);
+    }
+    // oracle (real coordinator only): the locks the new transaction took are still its own.
+    // Site + kind off the trace: the lost lock's handle is one the call released because the LOG
+    // carried it (a recovered transaction's vote / an orphaned lock), i.e. a handle of the previous
+    // process that this process handed out again.
+    let mut already_lost: HashSet<String> = HashSet::new();
+    let mut check_b_locks = |cx: &mut Ctx, trace: &Vec<String>, c2: &DistributedTxCoordinator, b_keys: &Vec<(String, u64)>,
+                             opname: &str, released_from_log: &Vec<u64>, what_tx: String| {
+        if c2.get(b.tx_id).is_none() {
+            return;
+        }
+        for (key, h) in b_keys {
+            cx.rep.hit("oracle.foreign_lock_kept");
+            if c2.lock_manager().lock_holder(key) != Some(b.tx_id) && already_lost.insert(key.clone()) {
+                let class = if released_from_log.contains(h) { STALE_CLASS.to_string() } else { format!("tensor_chain.distributed_tx.{opname}/foreign_lock_released") };
+                report_violation(cx.rep, &class,
+                    "a call that releases locks by the handles the WAL carried (finishing a recovered transaction, or recover_from_wal releasing an orphaned lock) released a lock another, still pending transaction took after the restart: the logged handle was handed out again by the restarted process",
+                    json!({"script": format!("{sc:?}"), "trace": trace, "lost_key": key, "handle": h, "call": opname, "on": what_tx, "handles_from_the_log": released_from_log}));
+            }
+        }
+    };
+    if sc.live_recover {
+        let t1 = now_ms();
+        let res = match c2.recover_from_wal() {
+            Ok(s) => format!("recovered:{}:{}:{}:{}", s.pending_prepare, s.pending_commit, s.pending_abort, s.lock_releases_recovered),
+            Err(e) => format!("err:{e}"),
+        };
+        let d = hdigest(&c2, &txs, &keys);
+        step(cx, stream, &mut trace, &format!("recover_live {t1}"), &res, d, false);
+        check_b_locks(cx, &trace, &c2, &b_keys, "recover_from_wal", &orphaned, "orphaned locks".to_string());
+    }
+    // finish every recovered transaction; the new transaction's locks must outlive that
+    for (k, (i, hs)) in recovered.iter().enumerate() {
+        let how = sc.finish.get(k).copied().unwrap_or(0);
+        let phase = c2.get(txs[*i]).map(|t| t.phase);
+        let (line, opname, r) = match how {
+            1 => (format!("abort {}", i + 1), "abort", c2.abort(txs[*i], "requested")),
+            2 => (format!("force {} 1", i + 1), "force_resolve", c2.force_resolve(txs[*i], true)),
+            3 => (format!("force {} 0", i + 1), "force_resolve", c2.force_resolve(txs[*i], false)),
+            4 if phase == Some(TxPhase::Committing) => (format!("ccommit {}", i + 1), "complete_commit", c2.complete_commit(txs[*i])),
+            4 if phase == Some(TxPhase::Aborting) => (format!("cabort {}", i + 1), "complete_abort", c2.complete_abort(txs[*i])),
+            _ => (format!("commit {}", i + 1), "commit", c2.commit(txs[*i])),
+        };
+        cx.rep.hit(&format!("handles.finish.{opname}"));
+        let d = hdigest(&c2, &txs, &keys);
+        step(cx, stream, &mut trace, &line, &unit_res(&r), d, true);
+        check_b_locks(cx, &trace, &c2, &b_keys, opname, hs, format!("recovered transaction {}", i + 1));
+    }
+    let tkey = trace.join(";");
+    cx.rep.case(stream, if recovered.is_empty() { None } else { Some(&tkey) });
+}
+
+/// The regression of 0358827a first: transaction A is prepared under exactly the handle the
+/// restarted process would hand out next (before the fix its counter did not move at recovery);
+/// a new transaction B locks a key after the restart; A is finished in every way (or, aborted
+/// before the crash, has left an orphaned lock that recover_from_wal releases).
+fn directed_stale_handle(cx: &mut Ctx) {
+    for (name, votes, end, finish, live) in [
+        ("commit", vec![HV::Ahead(0)], HEnd::Leave, 0u8, false),
+        ("abort", vec![HV::Ahead(0)], HEnd::Leave, 1, false),
+        ("force", vec![HV::Ahead(0)], HEnd::Leave, 3, false),
+        ("second-shard", vec![HV::Locked, HV::Ahead(1)], HEnd::Leave, 0, false),
+        ("live-recover", vec![HV::Ahead(2)], HEnd::Leave, 0, true),
+        // `abort` logs no LockRelease: the handle stays in the log as an orphaned lock, which
+        // recover_from_wal on the live coordinator releases by handle
+        ("orphaned-lock", vec![HV::Ahead(1)], HEnd::Abort, 0, true),
+    ] {
+        cx.rep.hit("directed.stale-handle");
+        let sc = HScript { pre: vec![HTx { votes, skip_last: false, end }], drop_records: 0, b_locks: 4, live_recover: live, finish: vec![finish] };
+        run_handles(cx, &format!("d-{name}"), &sc);
+    }
+    // decided but unfinished (cut between the records of a commit), an orphaned lock, a fake handle
+    let sc = HScript {
+        pre: vec![
+            HTx { votes: vec![HV::Ahead(3)], skip_last: false, end: HEnd::Commit },
+            HTx { votes: vec![HV::Fake(1), HV::Ahead(0)], skip_last: false, end: HEnd::Leave },
+        ],
+        drop_records: 0, b_locks: 6, live_recover: false, finish: vec![4, 0],
+    };
+    for drop_records in 0..=6 {
+        run_handles(cx, &format!("d-cut{drop_records}"), &HScript { drop_records, ..sc.clone() });
+    }
+}
+
+fn handles_stream(cx: &mut Ctx, r: &mut Rng, rounds: u64) {
+    for round in 0..rounds {
+        let ntx = 1 + r.below(3) as usize;
+        let mut pre = vec![];
+        for _ in 0..ntx {
+            let nv = 1 + r.below(2) as usize;
+            let votes: Vec<HV> = (0..nv).map(|_| match r.below(20) {
+                0..=5 => HV::Locked,
+                6..=14 => HV::Ahead(r.below(6)),
+                15..=16 => HV::Fake(r.below(3)),
+                _ => HV::No,
+            }).collect();
+            let end = match r.below(20) { 0..=10 => HEnd::Leave, 11..=15 => HEnd::Commit, _ => HEnd::Abort };
+            pre.push(HTx { votes, skip_last: r.chance(3, 20), end });
+        }
+        let sc = HScript {
+            pre,
+            drop_records: if r.chance(1, 2) { 0 } else { r.below(5) as usize },
+            b_locks: if r.chance(2, 3) { 7 } else { r.below(7) as usize },
+            live_recover: r.chance(1, 5),
+            finish: (0..3).map(|_| r.below(5) as u8).collect(),
+        };
+        run_handles(cx, &format!("r{round}"), &sc);
     }
 }
 
@@ -2023,7 +2382,7 @@ fn direct_wal(cx: &mut Ctx, r: &mut Rng, rounds: u64) {
             let want = format!("ok {}", if expect.is_empty() { "-".to_string() } else { expect.iter().map(|x| x.0.clone()).collect::<Vec<_>>().join(" ") });
             if impl_rp != want {
                 let class = if torn_seen { "tensor_chain.tx_wal.open/append_after_torn_tail" } else { "tensor_chain.tx_wal.replay/acknowledged_record_lost" };
-                cx.rep.violation(class, "TxWal::replay does not return the appended records that lie before the cut",
+                report_violation(cx.rep, class, "TxWal::replay does not return the appended records that lie before the cut",
                     json!({"trace": trace, "expected": want, "replayed": impl_rp}));
             }
             let _ = len_open;
@@ -2128,7 +2487,9 @@ fn main() {
         "res.recover_mem.timed_out_some", "res.recover_mem.commit_some", "res.wal_err", "res.commit.wal_err", "res.abort.wal_err",
         "res.vote.wal_failed", "model.need_sizes", "oracle.memory_vs_log", "scenario.capped", "wal.rotated",
         "rot.prepared_tx_dropped", "directed.stale-handle", "direct.append.no_checksum", "op.truncate",
-        "op.truncate.skipped_pending", "truncate.prepared_tx_dropped",
+        "op.truncate.skipped_pending", "truncate.prepared_tx_dropped", "oracle.prepared_in_memory_durable",
+        "handles.recovered_some", "handles.orphaned_some", "oracle.foreign_lock_kept", "handles.finish.commit", "handles.finish.abort",
+        "handles.finish.force_resolve", "handles.finish.complete_commit",
     ]
     .iter()
     .map(|s| s.to_string())
@@ -2137,6 +2498,16 @@ fn main() {
     let root = Rng::new(args.seed);
     let t_start = std::time::Instant::now();
 
+    // first, on every run: the regression of the repaired lock-handle defect (0358827a) and the
+    // directed cases of the two known findings (rotation, truncate_wal with a transaction pending)
+    {
+        let mut cx = Ctx { m: &mut m, rep: &mut rep, stream_prefix: "" };
+        directed_stale_handle(&mut cx);
+    }
+    {
+        let mut cx = Ctx { m: &mut m, rep: &mut rep, stream_prefix: "rot." };
+        directed_rot(&mut cx);
+    }
     {
         let mut cx = Ctx { m: &mut m, rep: &mut rep, stream_prefix: "" };
         // direct WAL differential
@@ -2145,15 +2516,13 @@ fn main() {
         // hand-written shapes, every byte
         directed(&mut cx);
         directed_timeout_after_restart(&mut cx);
-        directed_stale_handle(&mut cx);
+        // the handle counter with real handle numbers
+        let mut r = root.fork("handles");
+        handles_stream(&mut cx, &mut r, if args.thorough { 1500 } else { 150 });
     }
     {
         let mut cx = Ctx { m: &mut m, rep: &mut rep, stream_prefix: "full." };
         directed_full(&mut cx, args.thorough);
-    }
-    {
-        let mut cx = Ctx { m: &mut m, rep: &mut rep, stream_prefix: "rot." };
-        directed_rot(&mut cx);
     }
     rep.note(&format!("direct + directed streams took {:.1} s", t_start.elapsed().as_secs_f64()));
     // seeded scenarios
